@@ -38,6 +38,8 @@ type world struct {
 	net    [][]*netState
 	paths  [][]string
 	tmp    string
+	treeUsers map[string]map[int]bool
+	optUsers  map[string]map[int]bool
 	walfd  int
 	wal    [][][2][]byte
 	modpfx string
@@ -77,6 +79,23 @@ func (w *world) setup() error {
 			return err
 		}
 		w.opts[os.ID] = oi
+	}
+	w.treeUsers, w.optUsers = map[string]map[int]bool{}, map[string]map[int]bool{}
+	for ti, ops := range p.Tasks {
+		for _, op := range ops {
+			if op.Tree != "" {
+				if w.treeUsers[op.Tree] == nil {
+					w.treeUsers[op.Tree] = map[int]bool{}
+				}
+				w.treeUsers[op.Tree][ti] = true
+			}
+			if op.Opt != "" {
+				if w.optUsers[op.Opt] == nil {
+					w.optUsers[op.Opt] = map[int]bool{}
+				}
+				w.optUsers[op.Opt][ti] = true
+			}
+		}
 	}
 	w.net = make([][]*netState, len(p.Tasks))
 	w.paths = make([][]string, len(p.Tasks))
@@ -129,16 +148,32 @@ func (w *world) setup() error {
 	return nil
 }
 
-// verifyAll re-verifies every snapshot (trees and options).
+// verifyAll re-verifies argument snapshots (trees and options) at a context
+// switch. Under the race kernel the running task reads only what a real
+// caller thread could legitimately read at that moment: the arguments of its
+// own ops and the arguments shared by several tasks — reading another task's
+// private arguments would itself be the sharing the detector reports.
 func (w *world) verifyAll() []string {
 	var out []string
+	cur := -1
+	if w.k.mode == "race" {
+		if t := w.k.current(); t != nil {
+			cur = t.id
+		}
+	}
 	for _, ts := range w.p.Trees {
+		if cur >= 0 && !w.mayRead(cur, w.treeUsers[ts.ID]) {
+			continue
+		}
 		ti := w.trees[ts.ID]
 		for _, v := range ti.snap.verify(ti.top, 3) {
 			out = append(out, "tree "+ts.ID+": "+v)
 		}
 	}
 	for _, os := range w.p.Options {
+		if cur >= 0 && !w.mayRead(cur, w.optUsers[os.ID]) {
+			continue
+		}
 		oi := w.opts[os.ID]
 		if oi.opts != nil {
 			for _, v := range oi.snap.verify(oi.opts) {
@@ -147,6 +182,10 @@ func (w *world) verifyAll() []string {
 		}
 	}
 	return out
+}
+
+func (w *world) mayRead(cur int, users map[int]bool) bool {
+	return users[cur] || len(users) >= 2
 }
 
 func (w *world) optsFor(op *plan.Op) *distiller.Options {
@@ -168,6 +207,7 @@ func (w *world) runOp(t *task, i int) {
 	oo := &t.out[i]
 	t.curOp = i
 	t.opYields = 0
+	t.opStallNs = 0
 	size := 0
 	if op.Op == "Apply" {
 		size = len(w.docs[w.trees[op.Tree].spec.Doc])
@@ -216,6 +256,7 @@ func (w *world) runOp(t *task, i int) {
 	}()
 	oo.SimEnd = k.simNow()
 	oo.Yields = t.opYields
+	oo.StallNs = t.opStallNs
 	oo.Finished = true
 	t.results[i] = rawResult{res, err}
 	k.event(evOpEnd, int64(t.id), int64(i), k.yieldsTotal)
